@@ -107,3 +107,69 @@ def strip_cuts(prog, floor=1):
     if len(obs) < floor:
         raise AnalysisBroken('STRIP-CUTS: no store in macros_strip')
     return RuleResult('STRIP-CUTS', obs, floor, {})
+
+
+def quote_state(prog, floor=2):
+    """QUOTE-STATE (C09): in macros_expand_params the nesting counter of the argument list (`open_parens`) is changed only
+    outside string *and* character literals: every `open_parens++/--` is control dependent on a test of each quote-state flag
+    the function keeps (`in_string`, `in_ticks`).  A `'('` argument must not change the depth."""
+    from rules.passsize import control_deps
+    fn = prog.fn_opt('macros_expand_params')
+    if fn is None:
+        raise AnalysisBroken('QUOTE-STATE: macros_expand_params not found')
+    flags = {}
+    for n in fn.nodes.values():
+        if n['k'] == 'DeclRefExpr' and n.get('dk') == 'local' and (n.get('n') or '').startswith('in_'):
+            flags[n['d']] = n['n']
+    if len(flags) < 2:
+        raise AnalysisBroken('QUOTE-STATE: fewer than two quote-state flags in macros_expand_params')
+    from nk.cfg import dominators
+    dom = dominators(fn)
+    obs = []
+    k = 0
+    for n in sorted(fn.nodes.values(), key=lambda x: x['i']):
+        if n['k'] == 'UnaryOperator' and n.get('op') in ('++', '--') and strip(kids(n)[0]).get('n') == 'open_parens':
+            w = fn.where.get(n['i'])
+            if w is None:
+                continue
+            k += 1
+            tested = set()
+            # a flag counts as tested when a dominating branch on it has an edge from which the update cannot be reached
+            # without coming back through that branch (the update lies on one side of the test)
+            for b in dom[w[0]]:
+                bb = fn.blocks[b]
+                cn = fn.nodes.get(bb.get('cond')) if 'cond' in bb else None
+                if cn is None or b == w[0]:
+                    continue
+                # the block's own condition (last operand of a && / || chain)
+                own = strip(cn)
+                while own['k'] == 'BinaryOperator' and own.get('op') in ('&&', '||'):
+                    own = strip(kids(own)[1])
+                fl = {x['d'] for x in walk(own) if x['k'] == 'DeclRefExpr' and x.get('d') in flags}
+                if not fl:
+                    continue
+                for s_ in bb['s']:
+                    if s_ is None:
+                        continue
+                    seen = {b, s_}
+                    st = [s_]
+                    hit = s_ == w[0]
+                    while st and not hit:
+                        x = st.pop()
+                        for y in fn.succs(x):
+                            if y == w[0]:
+                                hit = True
+                                break
+                            if y not in seen:
+                                seen.add(y)
+                                st.append(y)
+                    if not hit:
+                        tested |= fl
+            missing = [flags[d] for d in flags if d not in tested]
+            obs.append(Ob('QUOTE-STATE', fn.file, n['l'], fn.q, 'depth#%d:%s' % (k, show(n)), DISCHARGED if not missing else VIOLATED,
+                          '' if not missing else '`%s` does not depend on %s: a parenthesis inside such a literal changes the nesting depth '
+                          'and the following comma is no longer taken as an argument separator' % (show(n), ', '.join(missing)),
+                          'under tests of %s' % ', '.join(sorted(flags.values())), False))
+    if len(obs) < floor:
+        raise AnalysisBroken('QUOTE-STATE: only %d depth updates in macros_expand_params' % len(obs))
+    return RuleResult('QUOTE-STATE', obs, floor, {})
